@@ -65,6 +65,24 @@ def run(tier, seed, replay=None):
     rep.tlc(c.run_tlc("FileOutput.tla", "FileOutputMC.cfg"))
     rep.cov["vacuity_guards"] = {"two writes per record": c.run_tlc("FileOutput.tla", "FileOutputTwoWrites.cfg", expect_violation=True).violated,
                                  "descriptor without O_APPEND": c.run_tlc("FileOutput.tla", "FileOutputNoAppend.cfg", expect_violation=True).violated}
+    if tier == "thorough":
+        # inductive argument with Apalache (spec/FileOutputApa.tla): Init => IndInv, IndInv /\ Next => IndInv', IndInv => NothingLostOrDuplicated
+        work = os.path.join(b["root"], "apa")
+        os.makedirs(work)
+        import shutil
+        shutil.copy(os.path.join(c.SPEC, "FileOutputApa.tla"), work)
+        obligations = [("--init=Init", "--inv=IndInv", "--length=0"), ("--init=IndInit", "--inv=IndInv", "--length=1"), ("--init=IndInit", "--inv=NothingLostOrDuplicated", "--length=0")]
+        ok = 0
+        for ob in obligations:
+            try:
+                p = subprocess.run(["apalache-mc", "check", "--cinit=CInit"] + list(ob) + ["FileOutputApa.tla"], cwd=work, capture_output=True, text=True, timeout=900)
+                if "EXITCODE: OK" in p.stdout:
+                    ok += 1
+            except (subprocess.TimeoutExpired, OSError):
+                pass
+        rep.cov["apalache_inductive_obligations"] = {"discharged": ok, "of": len(obligations)}
+        if ok != len(obligations):
+            rep.assumptions.append("Apalache did not discharge all three inductive obligations of FileOutputApa.tla in this run (%d of 3); TLC's bounded check stands alone" % ok)
     ctx = cf.Ctx(b, os.path.join(b["root"], "w"))
     sizes = [1, 100, 4094, 4095, 4096, 4097, 8192, 16384, 65536, 1048575]
     if tier == "thorough":
